@@ -12,3 +12,12 @@ else:
     s = s.replace("<!-- SEED_TABLE -->", block)
 open(p, "w").write(s)
 print(table.stderr.strip())
+
+# harmless refactorings table
+t2 = subprocess.run(["python3", os.path.join(HERE, "tools/harmless_table.py")], capture_output=True, text=True)
+s = open(p).read()
+block2 = "<!-- HARMLESS_TABLE -->\n" + t2.stdout.strip() + "\n<!-- /HARMLESS_TABLE -->"
+if "<!-- /HARMLESS_TABLE -->" in s:
+    s = re.sub(r"<!-- HARMLESS_TABLE -->.*?<!-- /HARMLESS_TABLE -->", lambda m: block2, s, flags=re.S)
+    open(p, "w").write(s)
+print(t2.stdout.strip().splitlines()[-1])
